@@ -179,22 +179,24 @@ theorem fallbackLoop_items (ends : List (Nat × Nat × Val)) (items : List Item)
       simp only [scanSpec, itemsBytes, Item.bytes, List.length_append]
       congr 3
       omega
-    | obj n g hl body =>
-      obtain ⟨htl, hsw, hcue, ⟨v, hends, hv⟩, hrest⟩ := hok
-      have hk := (takeLine_bounds htl).1
-      have hd : (pre ++ (itemsBytes (.obj n g hl body :: r) ++ tail)).drop pre.length =
-          hl ++ (body ++ (itemsBytes r ++ tail)) := by
+    | obj n g text =>
+      obtain ⟨⟨l, k, htl, hsw, hcue⟩, hne, ⟨v, hends, hv⟩, hrest⟩ := hok
+      have hk : 0 < text.length := by
+        cases text with
+        | nil => exact absurd rfl hne
+        | cons _ _ => simp
+      have hd : (pre ++ (itemsBytes (.obj n g text :: r) ++ tail)).drop pre.length =
+          text ++ (itemsBytes r ++ tail) := by
         simpa [itemsBytes, Item.bytes] using
-          drop_len_append' pre (hl ++ (body ++ (itemsBytes r ++ tail))) pre.length rfl
-      have hdata : pre ++ (itemsBytes (.obj n g hl body :: r) ++ tail) =
-          (pre ++ (hl ++ body)) ++ (itemsBytes r ++ tail) := by
+          drop_len_append' pre (text ++ (itemsBytes r ++ tail)) pre.length rfl
+      have hdata : pre ++ (itemsBytes (.obj n g text :: r) ++ tail) =
+          (pre ++ text) ++ (itemsBytes r ++ tail) := by
         simp [itemsBytes, Item.bytes]
-      have hlen : (pre ++ (hl ++ body)).length = pre.length + (hl ++ body).length := by simp
-      have hgt : ¬ (pre.length + (hl ++ body).length ≤ pre.length) := by
-        simp only [List.length_append]; omega
+      have hlen : (pre ++ text).length = pre.length + text.length := by simp
+      have hgt : ¬ (pre.length + text.length ≤ pre.length) := by omega
       rw [fallbackLoop]
       simp only [hd, htl, hsw, hcue, hends, Bool.false_eq_true, ↓reduceIte, hgt]
-      rw [hdata, ← hlen, ih (pre ++ (hl ++ body)) fuel' _ hfuel' (by rw [hlen]; exact hrest)]
+      rw [hdata, ← hlen, ih (pre ++ text) fuel' _ hfuel' (by rw [hlen]; exact hrest)]
       simp only [scanSpec, itemsBytes, Item.bytes, hlen]
       congr 3
       simp only [List.length_append]
@@ -263,9 +265,12 @@ theorem items_length_le (ends : List (Nat × Nat × Val)) (items : List Item) (p
       have := ih _ hr
       simp only [itemsBytes, Item.bytes, List.length_cons, List.length_append]
       omega
-    | obj n g hl body =>
-      obtain ⟨htl, _, _, _, hr⟩ := h
-      have := (takeLine_bounds htl).1
+    | obj n g text =>
+      obtain ⟨_, hne, _, hr⟩ := h
+      have : 0 < text.length := by
+        cases text with
+        | nil => exact absurd rfl hne
+        | cons _ _ => simp
       have := ih _ hr
       simp only [itemsBytes, Item.bytes, List.length_cons, List.length_append]
       omega
@@ -290,19 +295,29 @@ theorem itemsOK_of_itemsOKb (ends : List (Nat × Nat × Val)) (items : List Item
     | line l =>
       simp only [itemsOKb, Bool.and_eq_true, beq_iff_eq, Bool.not_eq_true'] at h
       exact ⟨h.1.1.1, h.1.1.2, h.1.2, ih _ h.2⟩
-    | obj n g hl body =>
-      simp only [itemsOKb, Bool.and_eq_true, beq_iff_eq, Bool.not_eq_true'] at h
-      obtain ⟨⟨⟨⟨h1, h2⟩, h3⟩, h4⟩, h5⟩ := h
-      refine ⟨h1, h2, h3, ?_, ih _ h5⟩
-      cases hl' : lookupNat ends pos with
-      | none => rw [hl'] at h4; simp at h4
-      | some ev =>
-        obtain ⟨e, v⟩ := ev
-        rw [hl'] at h4
-        simp only [Bool.and_eq_true, beq_iff_eq, Bool.not_eq_true'] at h4
-        refine ⟨v, by rw [h4.1], ?_⟩
-        intro id k t hv
-        rw [hv] at h4
-        simp [Val.isObjstm] at h4
+    | obj n g text =>
+      simp only [itemsOKb, Bool.and_eq_true, Bool.not_eq_true'] at h
+      obtain ⟨⟨⟨h1, h2⟩, h4⟩, h5⟩ := h
+      refine ⟨?_, ?_, ?_, ih _ h5⟩
+      · cases htl : takeLine (text ++ (itemsBytes r ++ after)) with
+        | none => rw [htl] at h1; simp at h1
+        | some lk =>
+          obtain ⟨l, k⟩ := lk
+          rw [htl] at h1
+          simp only [Bool.and_eq_true, Bool.not_eq_true', beq_iff_eq] at h1
+          exact ⟨l, k, rfl, h1.1, h1.2⟩
+      · intro hnil
+        rw [hnil] at h2
+        simp at h2
+      · cases hl' : lookupNat ends pos with
+        | none => rw [hl'] at h4; simp at h4
+        | some ev =>
+          obtain ⟨e, v⟩ := ev
+          rw [hl'] at h4
+          simp only [Bool.and_eq_true, beq_iff_eq, Bool.not_eq_true'] at h4
+          refine ⟨v, by rw [h4.1], ?_⟩
+          intro id k t hv
+          rw [hv] at h4
+          simp [Val.isObjstm] at h4
 
 end PdfVerif.Xref
